@@ -113,7 +113,7 @@ class ToolStub:
     def execute(self, *args, **kwargs):
         self.calls += 1
         I = self._I
-        entry = ["tool", self.name, [I.vid(a) for a in args], [(k, I.vid(v)) for k, v in kwargs.items()], None]
+        entry = ["tool", self.name, [I.vid(a) for a in args], [(k, I.vid(v)) for k, v in kwargs.items()], None, self]
         self._log.append(entry)
         if self.behaviour == "raise":
             raise RuntimeError("tool failed")
@@ -248,7 +248,7 @@ class Recorder:
         def kws(k):
             return clist([f"({cstring(n)}, {cz(v)})" for n, v in k])
 
-        for kind, name, args, kw, r in self.log:
+        for kind, name, args, kw, r in (e[:5] for e in self.log):
             if kind == "bin" and len(args) == 2:
                 bins.append(f"({cstring(name)}, {cz(args[0])}, {cz(args[1])}, {o(r)})")
             elif kind == "un" and len(args) == 1:
@@ -287,7 +287,7 @@ class Recorder:
         """Canonical observation of the primitive trace (strings as code points)."""
         out = []
         code = {"bin": 0, "un": 1, "cmp": 3, "call": 5, "tool": 8}
-        for kind, name, args, kw, r in self.log:
+        for kind, name, args, kw, r in (e[:5] for e in self.log):
             row = [code[kind], len(name)] + [ord(c) for c in name] + [len(args)] + list(args)
             for n, v in kw:
                 row += [len(n)] + [ord(c) for c in n] + [v]
